@@ -72,11 +72,16 @@ func New[K ~string, V any](expTime, cleanupTime time.Duration) *Cache[K, V] {
 // Set inserts a new item into the cache, but first verifies if an item with the same key already exists in the cache.
 // In case an item with the specified key already exists in the cache it will return an error.
 func (c *Cache[K, V]) Set(key K, val V, d time.Duration) error {
-	item, err := c.Get(key)
-	if item != nil && err == nil {
+	// The existence test and the insertion share one critical section: with
+	// the test done under the read lock beforehand, several goroutines setting
+	// the same key could all pass it and all be granted the insert.
+	c.mu.Lock()
+	defer c.mu.Unlock()
+
+	if item, ok := c.items[key]; ok && !item.expired() {
 		return fmt.Errorf("item with key '%v' already exists. Use the Update method", key)
 	}
-	c.add(key, val, d)
+	c.store(key, val, d)
 
 	return nil
 }
@@ -90,6 +95,14 @@ func (c *Cache[K, V]) SetDefault(key K, val V) error {
 // If the duration is 0 (or DefaultExpiration) the cache default expiration time is used.
 // If the duration is < 0 (or NoExpiration), the item never expires and should be removed manually.
 func (c *Cache[K, V]) add(key K, val V, d time.Duration) error {
+	c.mu.Lock()
+	defer c.mu.Unlock()
+
+	return c.store(key, val, d)
+}
+
+// store is add without the locking: the caller must hold the write lock.
+func (c *Cache[K, V]) store(key K, val V, d time.Duration) error {
 	var exp int64
 
 	if d == DefaultExpiration {
@@ -101,11 +114,6 @@ func (c *Cache[K, V]) add(key K, val V, d time.Duration) error {
 		exp = int64(NoExpiration)
 	}
 
-	item, err := c.Get(key)
-	if item != nil && err != nil {
-		return fmt.Errorf("item with key '%v' already exists", key)
-	}
-
 	switch any(val).(type) {
 	case string:
 		if len(any(val).(string)) == 0 {
@@ -113,12 +121,10 @@ func (c *Cache[K, V]) add(key K, val V, d time.Duration) error {
 		}
 	}
 
-	c.mu.Lock()
 	c.items[key] = &Item[V]{
 		object:     val,
 		expiration: exp,
 	}
-	c.mu.Unlock()
 
 	return nil
 }
@@ -141,6 +147,11 @@ func (c *Cache[K, V]) Get(key K) (*Item[V], error) {
 	}
 	c.mu.RUnlock()
 	return nil, fmt.Errorf("item with key '%v' not found", key)
+}
+
+// expired tells if the item has an expiration time which has passed.
+func (it *Item[V]) expired() bool {
+	return it.expiration > 0 && time.Now().UnixNano() > it.expiration
 }
 
 // Val returns the effective value of the cache item.
